@@ -598,12 +598,12 @@ func postprocessParsed(lookup objLookup) {
 		}
 		if len(l) > 1 {
 			for _, c := range l[1:] {
-				words := strings.Split(c.parsed, " ")
+				words := strings.Fields(c.parsed)
 				// Strip (interface-name)
 				if words[2][0] == '(' {
 					copy(words[2:], words[3:])
 				}
-				if words[2] == "host" {
+				if len(words) >= 4 && words[2] == "host" {
 					words[3] = "x"    // Change to value generated by Netspoc.
 					words = words[:4] // Strip key, timeout
 					ref := ""
